@@ -28,8 +28,8 @@ META = {
     "rule": "one run = one (spec, settings, random seed) executed in two forked sibling processes under two different environment perturbations (clock, heap layout, GC, identity-hash order); non-trivial = both siblings emitted >=1 solution and the perturbations differ in >=2 dimensions; distinct = distinct event-log digests",
     "state_measure": "(h, r, settings class, which perturbation dimensions differ)",
     "components": {"real": ["everything used by Fandango(...), fuzz(), parse() in both siblings"], "stub": ["clock (perturbed on purpose)", "identity-hash order of grammar nodes / parties (seeded permutation instead of addresses)"]},
-    "expected_probes": ["fresh_interpreter_pair", "clock_jump_backwards", "gc_disabled", "gc_aggressive", "heap_noise", "hash_permutation_differs", "both_emitted", "parse_back_compared"],
-    "bounds": {"solutions": "<= 8", "generations": "<= 8", "population": "<= 20"},
+    "expected_probes": ["fresh_interpreter_pair", "clock_jump_backwards", "gc_disabled", "gc_aggressive", "heap_noise", "hash_permutation_differs", "both_emitted", "parse_back_compared", "tiny_language_spec"],
+    "bounds": {"solutions": "<= 8", "generations": "<= 8", "population": "<= 40"},
     "assumptions": ["both siblings are forks of one warmed interpreter with the same PYTHONHASHSEED (the thorough tier repeats a subset in genuinely fresh interpreters)"],
 }
 
@@ -152,7 +152,20 @@ def _run_pair_fresh(jobs, hashseed):
 
 def run(run: Run) -> None:
     ch, cfg = run.ch, run.cfg
-    spec = S.gen_searchspec(ch, dict(cfg.get("spec", {}), generators=False, raising_rate=0.2))
+    tiny = ch.coin(cfg.get("tiny_language_rate", 0.2), "spec", "tiny-language")
+    if tiny:
+        # a language with fewer members than the population is large: the search cannot fill its
+        # population with unique individuals and its give-up logic decides how far it goes
+        spec = S.SearchSpec()
+        spec.rules["start"] = ("cat", (("nt", "ta"), ("lit", "-"), ("nt", "tb")))
+        spec.rules["ta"] = ("alt", tuple(("lit", c) for c in "abcd"[: ch.rng_range(2, 4, "spec", "tiny-a")]))
+        spec.rules["tb"] = ("rx", r"[1-3]", "c")
+        if ch.draw(2, "spec", "tiny-cons"):
+            spec.constraints = ["where str(<ta>) != 'a'"]
+            spec.h = 1
+        run.probe("tiny_language_spec")
+    else:
+        spec = S.gen_searchspec(ch, dict(cfg.get("spec", {}), generators=False, raising_rate=0.2))
     text = spec.to_fan()
     prewarm(text)
     run.event("spec", text)
@@ -160,7 +173,7 @@ def run(run: Run) -> None:
     seed = 0 if ch.coin(0.12, "work", "seed-zero") else ch.draw(10_000, "work", "random-seed")
     n_sol = ch.rng_range(2, 8, "work", "n-sol")
     gens = ch.pick([4, 2, 8], "work", "gens")
-    settings = dict(population_size=ch.pick([8, 3, 20], "cfg", "population"), max_nodes=ch.pick([40, 20, 80], "cfg", "max_nodes"), mutation_rate=ch.pick([0.2, 0.8], "cfg", "mut"), crossover_rate=ch.pick([0.8, 0.3], "cfg", "cx"), destruction_rate=ch.pick([0.0, 0.3], "cfg", "destr"))
+    settings = dict(population_size=ch.pick([8, 3, 20] if not tiny else [20, 40, 14], "cfg", "population"), max_nodes=ch.pick([40, 20, 80], "cfg", "max_nodes"), mutation_rate=ch.pick([0.2, 0.8], "cfg", "mut"), crossover_rate=ch.pick([0.8, 0.3], "cfg", "cx"), destruction_rate=ch.pick([0.0, 0.3], "cfg", "destr"))
     pa, pb = _draw_pert(ch, "a"), _draw_pert(ch, "b")
     dims = [k for k in pa if pa[k] != pb[k]]
     for p_ in (pa, pb):
